@@ -93,3 +93,31 @@ contract("datetimeoper:DateTimeOperator.diff_time_point_strs", use_at_calls=Fals
          note="two date-time arguments: each parsed and shifted by its own offsets in "
               "order, ONE date_diff of (first, second) in that order, its duration and "
               "sign formatted together; --as-total is taken of that same text")
+
+
+# ---------------------------------------------------------------- TimePoint.strftime (C17)
+# TimePoint.strftime(fmt) / str(p, strftime_format=fmt) DELEGATE to TimePointDumper.strftime
+# of the dumper for p's expanded-year digits - the function whose behaviour C17 proves - and
+# not to dump(), whose template syntax and ValueError fallback would silently mis-render
+# unsupported directives.  The two dumper methods are uninterpreted here.
+for (name, ret) in (("strftime", "('dumper.strftime', timepoint, formatting_string)"),
+                    ("dump", "('dumper.dump', timepoint, formatting_string)")):
+    contract("dumpers:TimePointDumper.abstract." + name, returns=ret,
+             note="uninterpreted stand-in while the delegation of TimePoint.strftime is verified")
+
+
+def _sf_case(d, ned):
+    def build(E, st):
+        from .shapes import mk_timepoint
+        return {"self": mk_timepoint(E, st, "self", d, "hms", ned=ned),
+                "strftime_format": "<strftime-format>"}
+    return build
+
+
+contract("data:TimePoint.strftime", use_at_calls=False, abstract_calls=["strftime", "dump"],
+         cases=[Case("%s-x%d" % (d, ned), _sf_case(d, ned), ensures=[
+             "result[0] == 'dumper.strftime' and result[1] is self"
+             " and result[2] == '<strftime-format>'"])
+             for d in ("cal", "ord", "week") for ned in (0, 2)],
+         note="TimePoint.strftime hands the point and the format, unchanged, to "
+              "TimePointDumper.strftime (never to dump)")
